@@ -88,6 +88,10 @@ fn run_case(_kind: &str, idx: u64, rng: &mut Rng, mon: &mut Mon, _tier: Tier) {
     let mut classes = [0usize; 6];
     for j in 0..6 {
         let cls = *rng.pick(&[0, 0, 0, 1, 1, 2, 3, 4, 5, 5, 6, 7, 10, 11, 12]);
+        // (with the CONSTRAINT_CENTERED sentinel the constraint centres become the previous vector; the centre of a
+        // range with an infinite bound is not finite, and non-finite previous vectors are outside the property's
+        // quantifier - see DESIGN 7.3: the singularity recovery spins on them. Infinite bounds go with explicit previous.)
+        let cls = if cls == 12 && sentinel { 6 } else { cls };
         classes[j] = cls;
         let (f, t) = limit_pair(rng, cls, anchor[j]);
         from[j] = f;
